@@ -11,4 +11,7 @@ StylesBoth == {"eol", "direct"}
 CutsNone == {"none"}
 CutsAll == {"none", "afterID", "afterIDws", "beforeEI", "afterEIws"}
 OnlyIntended == {{}}
+NoLead == {<<>>}
+\* the inline image in the 1st, 2nd, 3rd stream of the array, after streams of 2, 17+2 and 40 bytes
+LeadsAll == {<<>>, <<2>>, <<17, 2>>, <<40>>}
 ====
